@@ -42,7 +42,19 @@ func cliBin(c *fw.Ctx) string { return filepath.Join(c.Env.BuildDir, "whispertoo
 func runCLIAs(c *fw.Ctx, uid uint32, args ...string) cliResult {
 	ctx, cancel := context.WithTimeout(context.Background(), 120*time.Second)
 	defer cancel()
-	cmd := exec.CommandContext(ctx, cliBin(c), args...)
+	bin := cliBin(c)
+	if uid != 0 {
+		// the build directory may not be reachable for the unprivileged uid: run a copy from the scratch directory
+		priv := filepath.Join(c.TmpDir(), "bin-for-uid")
+		if b, err := os.ReadFile(bin); err == nil {
+			os.MkdirAll(priv, 0755)
+			os.Chmod(priv, 0755)
+			if os.WriteFile(filepath.Join(priv, "whispertool"), b, 0755) == nil {
+				bin = filepath.Join(priv, "whispertool")
+			}
+		}
+	}
+	cmd := exec.CommandContext(ctx, bin, args...)
 	var so, se bytes.Buffer
 	cmd.Stdout, cmd.Stderr = &so, &se
 	if uid != 0 {
